@@ -1056,6 +1056,16 @@ struct json_object *json_tokener_parse_ex(struct json_tokener *tok, const char *
 				int64_t num64;
 				uint64_t numuint64;
 				double numd;
+				if (tok->flags & JSON_TOKENER_STRICT)
+				{
+					/* No superfluous leading zeros, whatever the kind of number */
+					const char *digits = tok->pb->buf + (tok->pb->buf[0] == '-' ? 1 : 0);
+					if (digits[0] == '0' && digits[1] >= '0' && digits[1] <= '9')
+					{
+						tok->err = json_tokener_error_parse_number;
+						goto out;
+					}
+				}
 				if (!tok->is_double && tok->pb->buf[0] == '-' &&
 				    json_parse_int64(tok->pb->buf, &num64) == 0)
 				{
